@@ -579,7 +579,11 @@ class Driver(object):
             comps.append((comp.state, comp.idx in staged, comp.runs, comp.finishCalled,
                           comp.engine.restarts, comp.engine.resub))
         done = sorted(self.idx_of[r] for r in self.ctl.comp_done)
-        return {'comps': comps, 'done': done, 'stop': bool(self.ctl.stop_executing),
+        try:
+            sst = self.ctl.stageState() if self.cur >= 0 and self.ctl.currentStage is not None else None
+        except BaseException as e:   # noqa
+            sst = 'error:%s' % type(e).__name__
+        return {'stage_state': sst, 'comps': comps, 'done': done, 'stop': bool(self.ctl.stop_executing),
                 'pmq': sorted(self.pmq), 'finq': sorted(self.finq),
                 'running': self.stage_running(), 'verdict': self.verdict, 'cur': self.cur}
 
